@@ -309,7 +309,7 @@ def run(ctx):
         'Unknown': r"^%sArg\.Unknown\(value_str\)$" % W,
     }
     obj_pat = r"^%sArg\.Object\(%sUnresolvedObject\(int\(%s\), %s\), False\)$" % (W, W, G('obj_id'), G('obj_type'))
-    new_pat = r"^%sArg\.Object\(%sUnresolvedObject\(int\(%s\), (?:%s|None)\), True\)$" % (W, W, G('new_id'), G('new_type'))
+    new_pat = r"^%sArg\.Object\(%sUnresolvedObject\(int\(%s\), (?:%s|None|%s or None)\), True\)$" % (W, W, G('new_id'), G('new_type'), G('new_type'))
     seen_ctor = set()
     for p in arg_paths:
         c, sym = ctor_of(p)
@@ -391,14 +391,8 @@ def run(ctx):
             sent_val = sent.value
         else:
             # the flag may be a condition that was decided on this path
-            facts_ = {a.text: v for a, v in p.decisions}
-            neg_ = False
-            s_ = sent
-            while isinstance(s_, ast.UnaryOp) and isinstance(s_.op, ast.Not):
-                neg_ = not neg_
-                s_ = s_.operand
-            if norm(s_) in facts_:
-                sent_val = facts_[norm(s_)] != neg_
+            from ..sim import eval_bool_sym
+            sent_val = eval_bool_sym(sent, {a.text: v for a, v in p.decisions})
         if sent_val is None:
             ctx.violation('C01.10', 'message:sent-not-constant', site_msg, 'sent flag is %s on the path using %s' % (norm(sent), u))
             continue
@@ -515,7 +509,10 @@ def run(ctx):
         conn = rv.elts[0] if isinstance(rv, ast.Tuple) and rv.elts else None
         ct = norm(conn)
         conn_truthy = [v for a, v in p.decisions if re.search(r"%s$" % Gx('conn'), a.text)]
-        if conn_truthy and conn_truthy[0]:
+        orform = re.match(r"^%s or '(\w+)'$" % Gx('conn'), ct)
+        if orform:
+            good = True         # `group or CONST`: the tag when present (non-empty by the pattern), else one fixed id
+        elif conn_truthy and conn_truthy[0]:
             good = bool(re.match(r'^%s$' % Gx('conn'), ct))
         else:
             good = isinstance(conn, ast.Constant) and isinstance(conn.value, str) and conn.value != ''
@@ -532,10 +529,14 @@ def run(ctx):
     sep = None
     skip = None
     quote_branch = False
+    lconst = {}
+    for n in f_split.body_nodes():
+        if isinstance(n, ast.Assign) and len(n.targets) == 1 and isinstance(n.targets[0], ast.Name) and isinstance(n.value, ast.Constant) and isinstance(n.value.value, str):
+            lconst[n.targets[0].id] = n.value.value
     for n in f_split.body_nodes():
         if isinstance(n, ast.Call) and isinstance(n.func, ast.Attribute) and n.func.attr == 'startswith' and n.args \
-                and isinstance(n.args[0], ast.Constant):
-            sep = n.args[0].value
+                and (isinstance(n.args[0], ast.Constant) or (isinstance(n.args[0], ast.Name) and n.args[0].id in lconst)):
+            sep = n.args[0].value if isinstance(n.args[0], ast.Constant) else lconst[n.args[0].id]
             ifn = n
             while ifn is not None and not isinstance(ifn, ast.If):
                 ifn = getattr(ifn, '_parent', None)
@@ -577,7 +578,7 @@ def run(ctx):
     # ---- C01.13 every piece is decoded, in order ------------------------------------------------------
     f_al = repo.func('parse.argument_list')
     for p in paths_of_(repo, f_al):
-        ok = p.outcome[0] == 'return' and norm(p.outcome[1]) in ('tuple((argument(p, s) for s in argument_list_strs(args_str)))', 'tuple([argument(p, s) for s in argument_list_strs(args_str)])')
+        ok = p.outcome[0] == 'return' and re.match(r'^tuple\([\(\[]argument\(p, (\w+)\) for \1 in argument_list_strs\(args_str\)[\)\]]\)$', norm(p.outcome[1])) is not None
         ctx.check(ok, 'C01.13', 'argument_list:all-in-order', f_al.loc(), 'every piece of the argument text is decoded, in order, into one argument', 'argument_list returns %s' % p.outcome_text()[:120])
     return ('static obligations on the log decoder: automata inclusion/disjointness between the printer language '
             '(11 argument renderings, sent/received lines with up to %d arguments, both dialects, optional tags) and the '
